@@ -245,3 +245,80 @@ FORWARD_METHODS = {
     'ito': ['euler', 'milstein', 'srk'],
     'stratonovich': ['euler_heun', 'heun', 'midpoint', 'milstein', 'reversible_heun', 'log_ode'],
 }
+
+
+# ---------------------------------------------------------------- SDE with UNINTERPRETED drift / diffusion
+import math as _math
+from .dag import Node as _Node, lift as _lift, UF_IMPL as _UF_IMPL
+
+
+def scalar_node(t):
+    """dag node of a scalar time argument (SymT 0-d, plain tensor, python number)"""
+    if isinstance(t, SymT):
+        return t.sym.reshape(-1)[0]
+    return _lift(float(t))
+
+
+def _impl(k):
+    return lambda *xs: _math.sin(0.7 * k + sum((0.3 + 0.11 * i) * x for i, x in enumerate(xs))) * 0.5 + 0.1 * k
+
+
+class UFSDE(torch.nn.Module):
+    """f_i = F_i(t, y_1..y_d), g_ij = G_ij(t, y_1..y_d) with F, G uninterpreted function symbols (row-wise in the batch).
+    diagonal: g_i = G_i(t, y_i);  additive: G_ij(t)."""
+
+    def __init__(self, sde_type, noise_type, d, m, tag=''):
+        super().__init__()
+        self.sde_type, self.noise_type, self.d, self.m, self.tag = sde_type, noise_type, d, m, tag
+
+    def _apply(self, name, k, t, ycols_sym, ycols_val, tval):
+        _UF_IMPL.setdefault(name, _impl(k))
+        val = _UF_IMPL[name](tval, *ycols_val)
+        return val, _Node('uf', name, scalar_node(t), *ycols_sym)
+
+    def _eval(self, t, y, names_for):
+        B, d = y.shape
+        tval = float(t.elem) if isinstance(t, SymT) else float(t)
+        ysym = y.sym if isinstance(y, SymT) else None
+        yval = (y.elem if isinstance(y, SymT) else y).detach()
+        return B, d, tval, ysym, yval
+
+    def f(self, t, y):
+        B, d, tval, ysym, yval = self._eval(t, y, None)
+        vals = np.zeros((B, d)); syms = np.empty((B, d), dtype=object)
+        for b in range(B):
+            for i in range(d):
+                vals[b, i], syms[b, i] = self._apply(f'F{self.tag}{i}', i + 1, t, list(ysym[b]), yval[b].tolist(), tval)
+        return SymT(torch.tensor(vals, dtype=torch.float64), syms)
+
+    def g(self, t, y):
+        B, d, tval, ysym, yval = self._eval(t, y, None)
+        nt, m = self.noise_type, self.m
+        if nt == 'diagonal':
+            vals = np.zeros((B, d)); syms = np.empty((B, d), dtype=object)
+            for b in range(B):
+                for i in range(d):
+                    vals[b, i], syms[b, i] = self._apply(f'G{self.tag}{i}', 10 + i, t, [ysym[b, i]], [float(yval[b, i])], tval)
+            return SymT(torch.tensor(vals, dtype=torch.float64), syms)
+        m = 1 if nt == 'scalar' else m
+        vals = np.zeros((B, d, m)); syms = np.empty((B, d, m), dtype=object)
+        for b in range(B):
+            for i in range(d):
+                for j in range(m):
+                    if nt == 'additive':
+                        vals[b, i, j], syms[b, i, j] = self._apply(f'G{self.tag}{i}_{j}', 10 + 3 * i + j, t, [], [], tval)
+                    else:
+                        vals[b, i, j], syms[b, i, j] = self._apply(f'G{self.tag}{i}_{j}', 10 + 3 * i + j, t, list(ysym[b]), yval[b].tolist(), tval)
+        return SymT(torch.tensor(vals, dtype=torch.float64), syms)
+
+
+class MinusSDE(torch.nn.Module):
+    """time-reversed, negated SDE (as tests/test_sdeint.py::test_reversibility builds it)"""
+
+    def __init__(self, sde):
+        super().__init__()
+        self.sde_type, self.noise_type = sde.sde_type, sde.noise_type
+        self.base = sde
+
+    def f_and_g(self, t, y):
+        return -self.base.f(-t, y), -self.base.g(-t, y)
